@@ -455,7 +455,13 @@ def evaluate_cases(ctx, cases, stream, theorem, nontrivial, what_key=None, on_bu
                               key=c.get('known_key'))
             continue
         bad = []
-        for (wq, iq), mans in zip(c['queries'], rep['answers']):
+        pairs = list(zip(c['queries'], rep['answers']))
+        if k % 2 == 1:
+            # every other graph is asked its questions in the opposite order (predicates and leaf tests BEFORE the traversals, the last node
+            # first): a fresh graph whose first visitor abandons a traversal half way is a state a fixed order never reaches
+            pairs.reverse()
+        ctx.count('query-order.' + ('reversed' if k % 2 == 1 else 'as-listed'))
+        for (wq, iq), mans in pairs:
             ia = impl_answer(g, iq)
             ma = canon_model(mans, wq, numbering[k])
             if not answers_equal(ia, ma):
